@@ -70,20 +70,39 @@ def m1(ctx, rep, T):
             nxt = spec[i + 2] if i + 2 < len(spec) else ('lit', '')
             ok = hole[0] in ('atom', 'opaque') and not (hole[0] == 'atom' and hole[2]) and nxt[0] in ('lit', 'lit*') and nxt[1].startswith('"')
     rep.check(ok, 'M1', 'typescript:import-specifier', 'import … from "./{crate}" — the unmodified crate name', f"TypeScript's import specifier is `{emit.seq_str(spec)[:120] if spec else '?'}`: it must be \"./<crate name>\" with nothing added, because the file is written as <crate name>.ts", {'file': f['file'], 'line': f['line']})
-    ofn = ctx.fn('output_file_name', file='cli/src/parse.rs')
-    lets = {l['names'][0]: l['v'] for l in ofn['lets'] if len(l.get('names', [])) == 1}
-    snake = vt.strip(lets.get('snake_case', {}))
-    body = snake.get('body') if isinstance(snake, dict) else None
-    txt = vt.show(body)
-    ok = isinstance(body, dict) and re.fullmatch(r'fmt"\{crate_name\}\.\{(extension:=)?[^}]*\}"', txt.replace(' ', '')) is not None
-    rep.check(ok, 'M1', 'file-name:snake', '{crate_name}.{ext}', f"output_file_name builds `{txt[:80]}` for the snake-case languages — the stem must be the unmodified crate name (TypeScript imports \"./<crate>\", Kotlin imports <package>.<crate>)", {'file': ofn['file'], 'line': ofn['line']})
-    ms = [m for m in ofn['matches'] if any(v.startswith('SupportedLanguage::') for a in m['arms'] for v in a['variants'])]
-    langs = {v.split('::')[1]: a['body'].replace(' ', '') for m in ms for a in m['arms'] for v in a['variants'] if v.startswith('SupportedLanguage::')}
+    # the file stem per language, by partial evaluation of output_file_name under `language = L` (whatever the match
+    # layout, closures or helper the function uses): TypeScript and Kotlin files must be named <unmodified crate name>.<ext>
+    ofn = ctx.fnx('output_file_name', file='cli/src/parse.rs')
+    lang_p = next((q['name'] for q in ofn['params'] if q.get('ty') == 'SupportedLanguage'), None)
+    crate_p = next((q['name'] for q in ofn['params'] if q.get('ty') == 'CrateName'), None)
+    if lang_p is None or crate_p is None:
+        raise core.Incomplete('output_file_name: language / crate-name parameters not found')
     sl = ctx.item('enum', 'SupportedLanguage')
+
+    def is_lang(x):
+        x = vt.strip(x)
+        return isinstance(x, dict) and x.get('k') == 'atom' and x.get('root') == lang_p and not x.get('path')
+
+    def stem_of(lang):
+        def full(val, d=0):
+            val = vt.unvar(vt.peval(vt.expand_closures(val), lambda sc: lang if is_lang(sc) else None))
+            return val
+        r = full(ofn['tail'])
+        # a `let ext = match language {..}` inside is resolved by the same oracle when the format string is evaluated
+        if isinstance(r, dict) and r.get('k') == 'fmt':
+            parts = r.get('parts', [])
+            if len(parts) >= 2 and 'hole' in parts[0]:
+                h = vt.strip(parts[0]['hole'])
+                plain = isinstance(h, dict) and h.get('k') == 'atom' and h.get('root') == crate_p and not h.get('path')
+                dot = str(parts[1].get('lit', '')).startswith('.') if 'lit' in parts[1] else False
+                return ('plain' if plain and dot else 'modified'), vt.show(r)
+        return 'unknown', vt.show(r)
     for v in sl['variants']:
-        rep.check(v['name'] in langs, 'M1', f"file-name:{v['name']}", langs.get(v['name'], ''), f"output_file_name has no arm for {v['name']}", {'file': ofn['file'], 'line': ofn['line']})
+        kind, txt = stem_of(v['name'])
+        rep.check(kind != 'unknown', 'M1', f"file-name:{v['name']}", txt[:60], f"output_file_name: the file name for {v['name']} could not be determined (`{txt[:80]}`)", {'file': ofn['file'], 'line': ofn['line']})
     for l in ('TypeScript', 'Kotlin'):
-        rep.check(langs.get(l) == 'snake_case()', 'M1', f'file-name:{l}:unmodified-crate', 'file stem == crate name', f"{l} files are named by `{langs.get(l)}` but imports name the unmodified crate", {'file': ofn['file'], 'line': ofn['line']})
+        kind, txt = stem_of(l)
+        rep.check(kind == 'plain', 'M1', f'file-name:{l}:unmodified-crate', 'file stem == crate name', f"{l} files are named by `{txt[:80]}` but imports name the unmodified crate — the stem must be the unmodified crate name (TypeScript imports \"./<crate>\", Kotlin imports <package>.<crate>)", {'file': ofn['file'], 'line': ofn['line']})
     # Kotlin package vs import
     kb = ctx.fn('Kotlin::begin_file', file='kotlin.rs')
     ki = ctx.fn('Kotlin::write_imports', file='kotlin.rs')
@@ -178,7 +197,17 @@ def m3(ctx, rep):
     f = ctx.fn('write_multiple_files', file='cli/src/writer.rs')
     site = {'file': f['file'], 'line': f['line']}
     loops = [l for l in f['loops'] if l.get('kind') == 'for']
-    ok = len(loops) == 1 and vt.show(vt.strip(loops[0]['over'])) == 'crate_parsed_data'
+    ok = False
+    if len(loops) == 1:
+        src, chain = vt.unvar(loops[0]['over']), []
+        while isinstance(src, dict) and (src.get('k') in ('ref', 'paren') or (src.get('k') == 'call' and src.get('recv') is not None)):
+            if src.get('k') == 'call':
+                chain.append(src.get('f'))
+                src = vt.unvar(src['recv'])
+            else:
+                src = vt.unvar(src.get('v'))
+        map_p = next((q['name'] for q in f['params'] if 'BTreeMap' in str(q.get('ty') or '') or q['name'] == 'crate_parsed_data'), 'crate_parsed_data')
+        ok = isinstance(src, dict) and src.get('k') == 'atom' and src.get('root') == map_p and not src.get('path') and all(x in ('into_values', 'values', 'values_mut', 'into_iter', 'iter', 'iter_mut') for x in chain)
     rep.check(ok, 'M3', 'write-loop:whole-map', 'for (_, parsed_data) in crate_parsed_data', f"write_multiple_files iterates `{vt.show(loops[0]['over'])[:60] if loops else '?'}`: every crate's data must be written, unfiltered", site)
     gen = [c for c in f['calls'] if c.get('f') == 'generate_types']
     wr = [c for c in f['calls'] if c.get('f') == 'check_write_file']
